@@ -10,8 +10,71 @@ use rand_chacha::ChaCha20Rng;
 
 fn fmr(l: &[[u8; 32]]) -> [u8; 32] { fast_merkle_root(l).to_parts().0 }
 
+// ---- JSON contract trees as tokens:  L<hex token> | A<n> v.. | O<n> (K<hex raw key>:<hex key literal> v)..
+#[derive(Clone)]
+enum J { Leaf(String), Arr(Vec<J>), Obj(Vec<(String, J)>) }
+fn j_of_value(v: &serde_json::Value, order: u8) -> J {
+    match v {
+        serde_json::Value::Object(m) => {
+            let mut e: Vec<(String, J)> = m.iter().map(|(k, v)| (k.clone(), j_of_value(v, order))).collect();
+            match order { 1 => e.reverse(), 2 => { let h = e.len() / 2; e.rotate_left(h); } _ => {} }
+            J::Obj(e)
+        }
+        serde_json::Value::Array(a) => J::Arr(a.iter().map(|x| j_of_value(x, order)).collect()),
+        other => J::Leaf(serde_json::to_string(other).unwrap()),
+    }
+}
+fn j_tokens(j: &J, out: &mut Vec<String>) {
+    match j {
+        J::Leaf(t) => out.push(format!("L{}", hex(t.as_bytes()))),
+        J::Arr(a) => { out.push(format!("A{}", a.len())); for x in a { j_tokens(x, out); } }
+        J::Obj(e) => { out.push(format!("O{}", e.len())); for (k, v) in e { out.push(format!("K{}:{}", hex(k.as_bytes()), hex(serde_json::to_string(k).unwrap().as_bytes()))); j_tokens(v, out); } }
+    }
+}
+fn j_parse(toks: &[&str], pos: &mut usize) -> Option<J> {
+    let t = *toks.get(*pos)?; *pos += 1;
+    let (c, body) = t.split_at(1);
+    match c {
+        "L" => Some(J::Leaf(String::from_utf8(unhex(body)?).ok()?)),
+        "A" => { let n: usize = body.parse().ok()?; let mut v = Vec::new(); for _ in 0..n { v.push(j_parse(toks, pos)?); } Some(J::Arr(v)) }
+        "O" => { let n: usize = body.parse().ok()?; let mut v = Vec::new();
+                 for _ in 0..n { let kt = *toks.get(*pos)?; *pos += 1; let raw = kt.get(1..)?.split(':').next()?; let k = String::from_utf8(unhex(raw)?).ok()?; v.push((k, j_parse(toks, pos)?)); }
+                 Some(J::Obj(v)) }
+        _ => None,
+    }
+}
+fn j_text(j: &J, spaced: bool, reversed: bool, out: &mut String) {
+    let sp = if spaced { " \n\t" } else { "" };
+    match j {
+        J::Leaf(t) => out.push_str(t),
+        J::Arr(a) => { out.push('['); out.push_str(sp); for (n, x) in a.iter().enumerate() { if n > 0 { out.push(','); out.push_str(sp); } j_text(x, spaced, reversed, out); } out.push(']'); }
+        J::Obj(e) => {
+            let mut e: Vec<&(String, J)> = e.iter().collect();
+            if reversed { e.reverse(); }
+            out.push('{'); out.push_str(sp);
+            for (n, (k, v)) in e.iter().enumerate() { if n > 0 { out.push(','); out.push_str(sp); } out.push_str(&serde_json::to_string(k).unwrap()); out.push_str(sp); out.push(':'); out.push_str(sp); j_text(v, spaced, reversed, out); }
+            out.push_str(sp); out.push('}');
+        }
+    }
+}
+fn eval_jsonc(w: &[&str]) -> Out {
+    // w[2] = w0|w1 (extra whitespace), then the tree tokens
+    if w.len() < 4 { return Out::ok("harnesserr jsonc".into()); }
+    let mut pos = 0;
+    let j = match j_parse(&w[3..], &mut pos) { Some(j) if pos == w.len() - 3 => j, _ => return Out::ok("harnesserr jsonc".into()) };
+    let mut text = String::new(); j_text(&j, w[2] == "w1", false, &mut text);
+    let h = ContractHash::from_json_contract(&text);
+    // the property's predicate on the implementation: the same contract with every object's keys reversed and re-spaced
+    let mut alt = String::new(); j_text(&j, w[2] != "w1", true, &mut alt);
+    let h2 = ContractHash::from_json_contract(&alt);
+    let mut fail = None;
+    match (&h, &h2) { (Ok(a), Ok(b)) if a == b => {}, (Err(_), Err(_)) => {}, _ => { fail = Some("json-order|contract hash depends on key order or whitespace".to_string()); } }
+    Out { result: match h { Ok(h) => format!("ok {}", hex(&h.to_byte_array())), Err(_) => "err".into() }, pred_fail: fail }
+}
+
 pub fn eval(case: &str) -> Out {
     let w: Vec<&str> = case.split(' ').collect();
+    if w.len() >= 2 && w[1] == "jsonc" { return eval_jsonc(&w); }
     if w.len() == 3 && w[1] == "json" {
         // the contract hash must not depend on key order or insignificant whitespace: compare with a re-ordered, re-spaced variant
         let text = match unhex(w[2]).and_then(|b| String::from_utf8(b).ok()) { Some(t) => t, None => return Out::ok("harnesserr json".into()) };
@@ -113,6 +176,11 @@ pub fn gen(rng: &mut ChaCha20Rng, n: usize, thorough: bool) -> Vec<Case> {
         let j = rjson(rng, 2);
         let _ = thorough;
         out.push(Case { text: format!("C11 json {}", hex(serde_json::to_string(&j).unwrap().as_bytes())), tags: vec!["json".into()], nontrivial: true });
+        // the same contract as a tree, its keys in three different orders, with and without extra whitespace: the model must give one hash
+        for order in 0..3u8 {
+            let mut toks = Vec::new(); j_tokens(&j_of_value(&j, order), &mut toks);
+            out.push(Case { text: format!("C11 jsonc w{} {}", order % 2, toks.join(" ")), tags: vec![format!("jsonc:order{}", order)], nontrivial: true });
+        }
     }
     out
 }
